@@ -488,7 +488,12 @@ pub fn witness_c10accept() -> bool {
         let secret = NamespaceSecret::from_bytes(&[91u8; 32]);
         let namespace = secret.id();
         let mut store = Store::memory();
-        drop(store.new_replica(secret.clone()).unwrap());
+        {
+            // one entry at the acceptor, so that the (empty) dialer's Init is answered and the session goes on to the next frame
+            let author = crate::Author::from_bytes(&[92u8; 32]);
+            let mut replica = store.new_replica(secret.clone()).unwrap();
+            crate::verif_incrate::witness::block_on(replica.hash_and_insert("k", &author, "v")).unwrap();
+        }
         store.close_replica(namespace);
         let bob = SyncHandle::spawn(store, None, "bob-accept".to_string());
         bob.open(namespace, OpenOpts::default().sync()).await.unwrap();
@@ -523,16 +528,22 @@ pub fn witness_c10accept() -> bool {
         let m2 = e2.new_replica(secret.clone()).unwrap().sync_initial_message().unwrap();
         SyncCodec.encode(Message::Init { namespace, message: m1 }, &mut buf).unwrap();
         SyncCodec.encode(Message::Init { namespace, message: m2 }, &mut buf).unwrap();
-        buf.extend_from_slice(&[0xAA]); // one stray byte after the two frames
+        // the acceptor's replies are read as they come, so that its `stopped()` can complete
+        let reader = tokio::task::spawn(async move { tokio::time::timeout(std::time::Duration::from_secs(10), recv.read_to_end(1 << 20)).await.is_ok() });
         send.write_all(&buf).await.unwrap();
-        send.finish().unwrap();
-        let _ = tokio::time::timeout(std::time::Duration::from_secs(5), recv.read_to_end(1 << 20)).await;
+        // stray bytes AFTER the session has failed (the frame reader buffers whatever is there while the session runs): draining
+        // the stream in handle_connection then fails too
+        tokio::time::sleep(std::time::Duration::from_millis(400)).await;
+        let _ = send.write_all(&[0xAAu8; 2048]).await;
+        let _ = send.finish();
+        let _ = reader.await;
         let res = tokio::time::timeout(std::time::Duration::from_secs(20), task).await;
         let bad = match res {
             Ok(Ok(Err(err))) => {
                 let ns = err.namespace();
+                eprintln!("c10accept: the failed session was reported with its document: {}", ns.is_some());
                 if ns != Some(namespace) {
-                    eprintln!("c10accept: the accepted session failed ({err:?}) and the report does not name its document");
+                    eprintln!("c10accept: the accepted session failed and the report ({}) does not name its document", err.to_string().lines().next().unwrap_or(""));
                     true
                 } else {
                     false
